@@ -179,6 +179,9 @@ type Exec struct {
 	synthTypes map[ast.Expr]types.Type
 	ifaceObj map[string]Ptr
 	resTypeStrs []string
+	curStack []*State
+	anchorIdx map[*ast.IndexExpr]string
+	autoTrig [][]string
 }
 
 type resultVar struct {
